@@ -177,7 +177,8 @@ def run(prog, tier) -> Result:
     cr.run("R08.1", Q("convert"), "convert same currency", money_and_unit(False),
            lambda o: (exc_sig(o), "") if o.kind == "raise" else judge_qty(o, unit=o.args[1], value=VAL(o, 0)))
     # no factor between currencies
-    gf = prog.method("Unit", "_get_factor")
+    from ..anchors import factor_method
+    gf = factor_method(prog)
     cr.run("R08.1", gf, "_get_factor between currencies", two_units_same_type("money"),
            lambda o: None if (o.kind == "return" and isinstance(o.value, NoneV)) else ("factor between currencies", o.brief()))
 
